@@ -23,6 +23,9 @@ for d in sorted(glob.glob(os.path.join(src, "C??-m*"))):
     if name == "C02-m4" and status != "confirmed":
         special = ("the demonstration is a stand-alone Miri test (the defect is a data race on the cell's slot; functional behaviour on x86-64 is unchanged); "
                    "confirmed with the Miri and TSan legs of the C02 check against the patch")
+    if name == "C02-m12" and status != "confirmed":
+        special = ("the demonstration is a stand-alone crate run under `cargo +nightly miri run` (the release moved from the publishing store to the claiming CAS is a data race only a happens-before checker sees; x86-64 runs are unaffected); "
+                   "confirmed with the Miri and TSan legs of the C02 check against the patch (see result.json)")
     if name == "C01-m10" and status != "confirmed":
         special = ("the demonstration is a Miri test (a Relaxed load of the cell state is a data race on the slot only a happens-before checker sees; x86-64 runs are unaffected); "
                    "confirmed with the Miri global-race leg of the C01 check against the patch (see result.json)")
